@@ -22,7 +22,7 @@ func init() {
 
 func c10() []*Ob {
 	return []*Ob{
-		{Prop: "C10", ID: "C10.1", Engine: "ALIAS+ORDER", Floor: 4,
+		{Prop: "C10", ID: "C10.1", Engine: "ALIAS+ORDER", Floor: 2,
 			Desc: "stored bytes are never handed to a mutator: Process' doc parameter and the slice returned by readNext reach no mutating sink; the document is copied into the payload buffer before the next readNext; functions of package tokenizer never append to a view of their input (in-place edits must stay inside the view)",
 			Check: func(c *Ctx) {
 				if fn := c.Fn("(*proxy/bulk.processor).Process"); fn != nil {
@@ -187,7 +187,7 @@ func c10() []*Ob {
 					}
 				}
 			}},
-		{Prop: "C10", ID: "C10.3", Engine: "DOM+PROV", Floor: 2,
+		{Prop: "C10", ID: "C10.3", Engine: "DOM+PROV", Floor: 1,
 			Desc: "count: the created-items counter is incremented by one in the block that appends the document to the payload (not for skipped lines), processDocsToCompressor returns it, and writeBulkResponse emits one item per unit of the value ProcessDocuments returned",
 			Check: func(c *Ctx) {
 				fn := c.Fn("(*proxy/bulk.Ingestor).processDocsToCompressor")
@@ -281,7 +281,7 @@ func c10() []*Ob {
 					checkTimeSearch(c, fn)
 				}
 			}},
-		{Prop: "C10", ID: "C10.5", Engine: "ORDER+DOM", Floor: 3,
+		{Prop: "C10", ID: "C10.5", Engine: "ORDER+DOM", Floor: 2,
 			Desc: "framing: in esBulkDocReader.ReadDoc an action line is skipped before every document line, an over-size document loops on without being returned, and the returned slice is capacity-limited (doc[:n:n])",
 			Check: func(c *Ctx) {
 				fn := c.Fn("(*proxyapi.esBulkDocReader).ReadDoc")
